@@ -1,7 +1,7 @@
 """C02 - EM iterations never decrease the mixture log-likelihood."""
 import numpy as np
 
-from vmon import gen, instr, models, oracles, scen
+from vmon import gen, instr, models, mstep, oracles, scen
 
 from vmon.scale import S
 
@@ -48,6 +48,11 @@ def plan(tier, seed):
                 o['wca'] = pick(scen.WCA['plain_nolead'])
             o['saliency'] = pick(['none', 'pos', 'wide', 'wide', 'int'])
             o['saliency_slice_scale'] = bool(rng.integers(0, 2))
+            tied = bool(lead) and -3 in o['wca']
+            if tied and rng.uniform() < 0.6:
+                # weights tied across slices: the slices' saliency totals must enter the pooled weight update
+                o['saliency'] = pick(['pos', 'wide'])
+                o['saliency_slice_scale'] = 'all'
             if kind in ('cacgmm', 'gcacgmm'):
                 o['covariance_norm'] = pick(['eigenvalue', 'trace', False])
                 o['hermitize'] = pick([True, True, False])
@@ -59,6 +64,8 @@ def plan(tier, seed):
             iters = (8 if r % 3 else 15) if tier == 'quick' else int(pick([10, 20, 50]))
             if kind == 'gcacgmm' and tier == 'quick':
                 iters = 15 if r % 3 else 25
+            if tied and o['saliency_slice_scale'] == 'all':
+                iters = max(iters, 20)
             cases.append(dict(kind=kind, cls='gauss', K=K, N=N, D=D, lead=lead, spread=float(pick([0.5, 1.0, 1.5, 3.0])), offset=float(pick([0, 0, 1e4, 3e6])) if kind in ('gmm', 'gcacgmm') else 0.0, layout=pick(['c', 'c', 'f', 'tview']), init=pick(['dirichlet:1', 'dirichlet:10', 'blur:0.5', 'dirichlet:0.3']),
                               iters=iters, opts=o, rs=[seed, 2, i]))
             i += 1
@@ -71,34 +78,52 @@ def loglik(s, model):
     return oracles.mixture_log_likelihood(lw, lp, s.saliency)
 
 
-def guard_state(s, model):
+def guard_state(s, model, event=None):
     """names of numerical guards that are active in this model (C02 restricts the claim to none)."""
-    g = []
+    g_ = []
     if s.kind in ('cacgmm', 'gcacgmm'):
         lam = np.asarray(model.cacg.covariance_eigenvalues)
         floor = s.copts.get('eigenvalue_floor', 1e-10)
         if s.copts.get('covariance_norm', 'eigenvalue') == 'eigenvalue':
             if lam.min() < 1e4 * floor:
-                g.append('cacg-eigenvalue-near-floor')
+                g_.append('cacg-eigenvalue-near-floor')
         else:
             if (lam.min(axis=-1) < 1e4 * floor * lam.max(axis=-1)).any():
-                g.append('cacg-eigenvalue-near-floor')
+                g_.append('cacg-eigenvalue-near-floor')
     if s.kind == 'cwmm':
         k = np.asarray(model.complex_watson.concentration)
         if (k <= 0).any() or (k >= s.tkw.get('max_concentration', 500) * (1 - 1e-9)).any():
-            g.append('watson-concentration-clipped')
+            g_.append('watson-concentration-clipped')
     if s.kind in ('gmm', 'gcacgmm'):
         # likelihood singularity of Gaussian mixtures: a component collapsing onto a single observation has its variance limited
-        # by the rounding of x - mean (~ eps^2 |x|^2); from there on the arithmetic, not EM, decides the likelihood
-        cov = np.asarray(model.gaussian.covariance, dtype=float)
-        ref = float(np.var(s.data['e'] if s.kind == 'gcacgmm' else s.data['y']))
-        small = np.linalg.eigvalsh(cov).min() if (cov.ndim >= 2 and type(model.gaussian).__name__ == 'Gaussian') else cov.min()
-        if small < 1e-12 * ref:
-            g.append('gaussian-component-collapsed')
+        # by the rounding of x - mean (~ eps^2 |x|^2); from there on the arithmetic, not EM, decides the likelihood.  Whether a
+        # component HAS collapsed is decided from the posteriors the M-step was given (two-pass weighted variance computed
+        # here), not from the covariance the library reports: a wrong variance must not be able to declare itself a guard.
+        x = np.asarray(s.data['e'] if s.kind == 'gcacgmm' else s.data['y'], dtype=float)
+        ref = float(np.median(np.var(x, axis=-2)))      # spread of the observations per slice and coordinate (offsets excluded)
+        ctype = {'Gaussian': 'full', 'DiagonalGaussian': 'diagonal', 'SphericalGaussian': 'spherical'}[type(model.gaussian).__name__]
+        cov = None
+        if event is not None and s.opts.get('fixed_covariance') is None:
+            g = np.asarray(event['affiliation'], dtype=float)
+            if s.saliency is not None:
+                g = g * np.asarray(s.saliency, dtype=float)[..., None, :]
+            if s.kind == 'gcacgmm':          # one Gaussian per class for all frequencies: 'fkt->k,ft'
+                g = np.moveaxis(g, -2, 0).reshape(g.shape[-2], -1)
+                x = x.reshape(-1, x.shape[-1])
+            with np.errstate(all='ignore'):
+                _, cov = mstep.gaussian(x, g, ctype)
+            full = ctype == 'full'
+        if cov is None:
+            cov = np.asarray(model.gaussian.covariance, dtype=float)
+            full = cov.ndim >= 2 and type(model.gaussian).__name__ == 'Gaussian'
+        with np.errstate(all='ignore'):
+            small = np.linalg.eigvalsh(cov).min() if full else cov.min()
+        if not small >= 1e-12 * ref:
+            g_.append('gaussian-component-collapsed')
     w = np.asarray(model.weight, dtype=float)
     if w.size and w.min() < 1e-12:
-        g.append('class-without-mass')
-    return g
+        g_.append('class-without-mass')
+    return g_
 
 
 def run_case(case, R):
@@ -125,7 +150,7 @@ def run_case(case, R):
                 if not instr.is_library_exception(ex):
                     raise
                 Ls.append(float('nan'))
-            guards.append(guard_state(s, e['model']))
+            guards.append(guard_state(s, e['model'], e))
     absL = max(1.0, abs(Ls[0]))
     Ntot = int(np.prod(s.lead, dtype=int)) * s.N
     tol = 1e-9 * absL
